@@ -12,6 +12,7 @@ mod resfault;
 mod resource;
 mod retain;
 mod hirdb;
+mod pairing;
 mod parse;
 mod rename;
 mod stbc;
@@ -34,6 +35,7 @@ fn main() {
         "fb-run" => fb::run(rest),
         "format-gen" => format::gen(rest), "format-run" => format::run(rest),
         "ctrlauth-gen" => ctrlauth::gen(rest), "ctrlauth-run" => ctrlauth::run(rest),
+        "pairing-gen" => pairing::gen(rest), "pairing-run" => pairing::run(rest),
         "resource-run" => resource::run(rest),
         "stcore-gen" => stcore::gen(rest),
         "emit-run" => emit::run(rest),
